@@ -1,6 +1,7 @@
 package treeset
 
 import (
+	"encoding/json"
 	"github.com/emirpasic/gods/v2/sets"
 	"github.com/emirpasic/gods/v2/containers"
 	rbt "github.com/emirpasic/gods/v2/trees/redblacktree"
@@ -132,4 +133,28 @@ func VHAlgebra() {
 func VHSnap() {
 	c := VGSmall()
 	containers.VSnapStep(containers.VSnap{C: c, Mutate: []func(){c.Clear, func() { c.Add(v.Int("m")) }, func() { c.Remove(v.Int("m")) }}, AddArgs: []func([]int){func(a []int) { c.Add(a...) }}, New: func(a []int) containers.Container[int] { return NewWith[int](vl.Cmp, a...) }})
+}
+
+var _ = vl.Less
+
+func vJSON(c *Set[int]) containers.VJSON {
+	return containers.VJSON{C: c, ToJSON: c.ToJSON, FromJSON: c.FromJSON,
+		Marshal: func() ([]byte, error) { return json.Marshal(c) },
+		Inv:     func() { rbt.VInv(c.tree) },
+		Step:    func() { x := v.Int("sx"); c.Add(x); v.Assert(c.Contains(x), "C12:add-after-load") },
+		Fresh:   func() containers.VJSON { return vJSON(NewWith[int](vl.Cmp)) },
+		Ref: func(ks, xs []int) ([]int, []int) { return nil, vl.SortedDistinct(xs) },
+	}
+}
+
+// VHJSONRound: ToJSON / json.Marshal / FromJSON round trip from an arbitrary state (C11).
+func VHJSONRound() {
+	c := VGSmall()
+	containers.VJSONRound(vJSON(c))
+}
+
+// VHJSONLoad: FromJSON of an arbitrary document into an arbitrary prior state (C12, C17).
+func VHJSONLoad() {
+	c := VGSmall()
+	containers.VJSONLoad(vJSON(c))
 }
